@@ -1417,6 +1417,8 @@ func (s *summarizer) blockEffects(b *ssa.BasicBlock, region int, guard *Term, em
 			}
 			if s.isEffectCall(x) {
 				emit(Effect{"call", region, guard, []*Term{s.term(x)}, x.Pos()})
+			} else if s.isCheckCall(x) {
+				emit(Effect{"check", region, guard, []*Term{s.term(x)}, x.Pos()})
 			}
 		case *ssa.Go:
 			emit(Effect{"go", region, guard, []*Term{s.deferredCallTerm(&x.Call)}, in.Pos()})
@@ -1597,6 +1599,15 @@ func (s *summarizer) isEffectCall(x *ssa.Call) bool {
 		return true
 	}
 	if !cm.IsInvoke() && cm.StaticCallee() == nil && isValueGeneratorSig(cm.Value.Type()) {
+		return true
+	}
+	return false
+}
+
+// isCheckCall: a call whose result is used but which can reject its input (validators, parsers, lookups that panic): it
+// matters on every path on which it is executed, also where its result ends up unused.
+func (s *summarizer) isCheckCall(x *ssa.Call) bool {
+	if g := x.Common().StaticCallee(); g != nil && s.p.mayPanic(g) {
 		return true
 	}
 	return false
